@@ -186,3 +186,80 @@ func TestGovcReplay(t *testing.T) {
 		},
 	}}, harnesses...)
 }
+
+func init() {
+	harnesses = append([]*harness{{
+		name:      "request header actions per route kind replay (prefix / variable / DSL routes with request_headers_to_add and host_rewrite)",
+		modelFree: true,
+		match: func(o *Obligation) bool {
+			return strings.Contains(o.Func, "pkg/router.") && strings.HasSuffix(o.Func, "RouteRuleImpl).FinalizeRequestHeaders") && strings.Contains(o.Name, "headerActionsApplied")
+		},
+		run: func(eng *Engine, o *Obligation) *ReplayOutcome {
+			src := `package router
+
+import (
+	"context"
+	"fmt"
+	"strings"
+	"testing"
+
+	v2 "mosn.io/mosn/pkg/config/v2"
+	"mosn.io/mosn/pkg/protocol"
+	"mosn.io/mosn/pkg/types"
+	"mosn.io/pkg/variable"
+)
+
+// The failed obligation says: a kind of route rule does not apply the configured request-header actions. Replay: three
+// virtual hosts that differ only in how their one route matches (prefix /, a variable, a DSL expression); each route and
+// each virtual host adds a request header and the route rewrites the host; a matching request is finalized.
+func TestGovcReplay(t *testing.T) {
+	add := func(k, v string) []*v2.HeaderValueOption {
+		return []*v2.HeaderValueOption{{Header: &v2.HeaderValue{Key: k, Value: v}}}
+	}
+	action := v2.RouteAction{RouterActionConfig: v2.RouterActionConfig{ClusterName: "c", HostRewrite: "rewritten.example", RequestHeadersToAdd: add("x-route", "r")}}
+	kinds := []struct {
+		name  string
+		match v2.RouterMatch
+	}{
+		{"prefix", v2.RouterMatch{Prefix: "/"}},
+		{"variable", v2.RouterMatch{Variables: []v2.VariableMatcher{{Name: types.VarPath, Value: "/x"}}}},
+		{"dsl", v2.RouterMatch{DslExpressions: []v2.DslExpressionMatcher{{Expression: "true"}}}},
+	}
+	var bad []string
+	for _, k := range kinds {
+		routers, err := NewRouters(&v2.RouterConfiguration{
+			VirtualHosts: []v2.VirtualHost{{Name: "vh", Domains: []string{"*"}, RequestHeadersToAdd: add("x-vhost", "v"),
+				Routers: []v2.Router{{RouterConfig: v2.RouterConfig{Match: k.match, Route: action}}}}},
+		})
+		if err != nil {
+			fmt.Println("REPLAY-INCONCLUSIVE", k.name, err)
+			return
+		}
+		ctx := variable.NewVariableContext(context.Background())
+		variable.SetString(ctx, types.VarPath, "/x")
+		headers := protocol.CommonHeader(map[string]string{})
+		rt := routers.MatchRoute(ctx, headers)
+		if rt == nil {
+			fmt.Printf("REPLAY-INCONCLUSIVE the %s route does not match\n", k.name)
+			return
+		}
+		rt.RouteRule().FinalizeRequestHeaders(ctx, headers, nil)
+		r, _ := headers.Get("x-route")
+		v, _ := headers.Get("x-vhost")
+		h, _ := variable.GetString(ctx, types.VarIstioHeaderHost)
+		if r != "r" || v != "v" || h != "rewritten.example" {
+			bad = append(bad, fmt.Sprintf("%s route: x-route=%q x-vhost=%q host rewrite=%q", k.name, r, v, h))
+		}
+	}
+	if len(bad) == 0 {
+		fmt.Println("REPLAY-NOT-REPRODUCED every kind of route applies the configured request header additions and the host rewrite")
+		return
+	}
+	fmt.Printf("REPLAY-CONFIRMED request_headers_to_add (route and virtual host) and host_rewrite are configured but not applied by: %s\n", strings.Join(bad, "; "))
+}
+`
+			out, _ := runOverlayTest("pkg/router", src, "^TestGovcReplay$")
+			return outcomeFromOutput(src, out)
+		},
+	}}, harnesses...)
+}
